@@ -8,7 +8,7 @@ CONSTANTS
   Atomic = TRUE
   Eager = FALSE
   Emit = FALSE
-  AdvKinds = {"flip", "dup", "drop", "swap", "splice", "replaycp", "delaycps"}
+  AdvKinds = {"flip", "dup", "drop", "swap", "splice", "replaycp", "delaycps", "dropwindow"}
 INVARIANTS SafetyFull
 CHECK_DEADLOCK FALSE
 VIEW MCView
